@@ -503,12 +503,18 @@ func renderTcpTrace(evs []tev, t0 time.Time) string {
 
 // ---------------------------------------------------------------- UDP client: idle expiry, again and again
 
-func runLifeUdpc(cycles int) string {
+// runLifeUdpc: a UDP client whose peer is silent (refused=false: the idle timeout ends each channel) or absent (refused=true: the
+// port is not bound; once the node has sent something the kernel reports "connection refused" to the reader).
+func runLifeUdpc(cycles int, refused bool) string {
 	pc, err := net.ListenPacket("udp4", "127.0.0.1:0")
 	if err != nil {
 		return "listen-failed"
 	}
-	defer pc.Close()
+	if refused {
+		pc.Close() // nobody listens there any more
+	} else {
+		defer pc.Close()
+	}
 	n := &gomavlib.Node{Endpoints: []gomavlib.EndpointConf{gomavlib.EndpointUDPClient{Address: pc.LocalAddr().String()}},
 		Dialect: common.Dialect, OutVersion: gomavlib.V2, OutSystemID: 9, HeartbeatDisable: true, IdleTimeout: lifeIdle}
 	if err := n.Initialize(); err != nil {
@@ -542,6 +548,11 @@ loop:
 					}
 				}
 				out = append(out, "A:o", "O")
+				if refused {
+					for i := 0; i < 3; i++ {
+						n.WriteMessageTo(ev.Channel, &common.MessageHeartbeat{Type: 1}) //nolint:errcheck
+					}
+				}
 			case *gomavlib.EventChannelClose:
 				open--
 				nClose++
@@ -791,7 +802,10 @@ func implLifecheck(t []string) string {
 		return runLifeTcpc(t[2])
 	case "udpc":
 		k, _ := strconv.Atoi(t[2])
-		return runLifeUdpc(k)
+		return runLifeUdpc(k, false)
+	case "udpr":
+		k, _ := strconv.Atoi(t[2])
+		return runLifeUdpc(k, true)
 	case "tcps":
 		return runLifeServer(false, t[2])
 	case "udps":
@@ -873,8 +887,13 @@ func genC14(r *rngT, n int, tier string) {
 			}
 			jobs[i].op = "lifecheck " + kind + " " + strings.Join(toks, ",")
 		case 4:
-			jobs[i].op = fmt.Sprintf("lifecheck udpc %d", 1+r.Intn(3))
-			stat("c14-udpc")
+			if r.bool() {
+				jobs[i].op = fmt.Sprintf("lifecheck udpr %d", 1+r.Intn(4))
+				stat("c14-udpc-refused")
+			} else {
+				jobs[i].op = fmt.Sprintf("lifecheck udpc %d", 1+r.Intn(3))
+				stat("c14-udpc")
+			}
 		}
 	}
 	sem := make(chan struct{}, 6)
